@@ -1424,6 +1424,10 @@ func (v *VMValue) ArrayRepeatTimesEx(ctx *Context, times *VMValue) *VMValue {
 	case VMTypeInt:
 		times, _ := times.ReadInt()
 		ad, _ := v.ReadArray()
+		if times < 0 {
+			ctx.Error = errors.New("数组重复次数不能为负数")
+			return nil
+		}
 		length := IntType(len(ad.List)) * times
 
 		if length > 512 {
